@@ -7,6 +7,13 @@
   (b) *solo progress*: a request whose admission test holds on the current word is granted by its
       next two steps when nobody interferes (`c02_solo_acquire`);
   (c) *quiescent ⇒ free*: with no live grant, a fresh `LockX` passes its test at once (`c02_quiescent_free_*`).
+  (d) *fair termination* (`c02_fair_termination_pess/_opt`, `Proofs/WLockLive.lean`): in the closed system "k agents, each
+      requests its mode once and releases it" (any k below the counter capacity, any modes, any published versions), every
+      schedule that consists of more than 3k(2k+1) rounds — stretches in which every agent is chosen at least once, which
+      every fair scheduler produces — ends with every request granted and released and the lock free again.  By a
+      potential that no action raises and that, while somebody is unfinished, some agent's next action lowers.
+      (Atomic steps read the current word and the weak CAS does not fail spuriously; conversions are not in the closed
+      system.)
   Together: no reachable state is doomed — every waiter either can proceed or is waiting for a holder
   that is itself not blocked (holders release without waiting: `releaseStep` is always enabled for a
   `held` agent).  The step from there to "every fair schedule of a finite program terminates" is the
@@ -15,6 +22,7 @@
 -/
 import CppUtil.Props.C01
 import CppUtil.Proofs.WLockMore
+import CppUtil.Proofs.WLockLive
 import CppUtil.Proofs.McsProgress
 import CppUtil.Props.McsProto
 
@@ -135,5 +143,49 @@ theorem c02_mcs_blocked_drain (nlocks nthreads : Nat) (acts : List Mcs.Act)
       Mcs.hmode (Mcs.run mcsParams (Mcs.mkSt nlocks nthreads) acts) G0 = none ∧
       ∃ k b, Mcs.TiedTo (Mcs.run mcsParams (Mcs.mkSt nlocks nthreads) acts) a.lk G0 k b :=
   Mcs.blocked_drain McsWordsGen.wordSpecs (mcs_invariant nlocks nthreads acts hr).inv hi hloc hfail
+
+/-- **every request is eventually granted and every call returns — fair termination, PessimisticLock.**
+    `k` agents start on a free lock; agent `i` requests `modes[i]` once and releases it.  For every schedule made of more
+    than `3k(2k+1)` rounds (every agent chosen at least once per round; the order and the repetitions are arbitrary) all
+    agents are done at the end, and a fresh exclusive request passes its admission test at once. -/
+theorem c02_fair_termination_pess (r k : Nat) (hk : k < 2 ^ 62) (modes : List Mode) (nvs : List (BitVec 32))
+    (segs : List (List Nat)) (hall : ∀ seg ∈ segs, ∀ j, j < k → j ∈ seg) (hlen : 3 * k * (2 * k + 1) < segs.length) :
+    (∀ l ∈ (execW (Gen.pess r) modes nvs (initK k) segs.flatten).agents, ∃ w, l = Loc.done w) ∧
+    (Gen.pess r).lockGuard .X (execW (Gen.pess r) modes nvs (initK k) segs.flatten).w = true := by
+  have hS := pess_specs r
+  have h0 : WL (Gen.pess r) pessDecoder k (initK k) := wl_init hS k (by simpa [pessDecoder] using hk)
+  have hfin := wl_exec hS modes nvs segs.flatten h0
+  have hz := rounds_finish hS modes nvs segs h0 hall (by rw [psi_init]; exact hlen)
+  have hdone := all_done_of_phases_zero hfin.closed hz
+  refine ⟨hdone, ?_⟩
+  have hq : ∀ l ∈ (execW (Gen.pess r) modes nvs (initK k) segs.flatten).agents, l.grant? = none := by
+    intro l hl; obtain ⟨w, rfl⟩ := hdone l hl; rfl
+  exact (quiescent_free hS hfin.inv hq).2.2.2
+
+/-- the same for OptimisticLock (shared counter of 30 bits) -/
+theorem c02_fair_termination_opt (r k : Nat) (hk : k < 2 ^ 30) (modes : List Mode) (nvs : List (BitVec 32))
+    (segs : List (List Nat)) (hall : ∀ seg ∈ segs, ∀ j, j < k → j ∈ seg) (hlen : 3 * k * (2 * k + 1) < segs.length) :
+    (∀ l ∈ (execW (Gen.opt r) modes nvs (initK k) segs.flatten).agents, ∃ w, l = Loc.done w) ∧
+    (Gen.opt r).lockGuard .X (execW (Gen.opt r) modes nvs (initK k) segs.flatten).w = true := by
+  have hS := opt_specs r
+  have h0 : WL (Gen.opt r) optDecoder k (initK k) := wl_init hS k (by simpa [optDecoder] using hk)
+  have hfin := wl_exec hS modes nvs segs.flatten h0
+  have hz := rounds_finish hS modes nvs segs h0 hall (by rw [psi_init]; exact hlen)
+  have hdone := all_done_of_phases_zero hfin.closed hz
+  refine ⟨hdone, ?_⟩
+  have hq : ∀ l ∈ (execW (Gen.opt r) modes nvs (initK k) segs.flatten).agents, l.grant? = none := by
+    intro l hl; obtain ⟨w, rfl⟩ := hdone l hl; rfl
+  exact (quiescent_free hS hfin.inv hq).2.2.2
+
+/-- the closed system's actions are steps of the lock model (the model that is replayed against the implementation) -/
+theorem c02_closed_system_steps (P : WParams) (modes : List Mode) (nvs : List (BitVec 32)) (s : St) (i : Nat) :
+    adv P modes nvs s i = s ∨ ∃ a e, step P s a = some (adv P modes nvs s i, e) :=
+  adv_is_step modes nvs s i
+
+/-- non-vacuity: three agents (X, S, SIX) on a PessimisticLock, 64 round-robin rounds -/
+theorem c02_fair_termination_nonvacuous :
+    ((execW (Gen.pess 1) [.X, .S, .SIX] [] (initK 3) (List.replicate 64 [0, 1, 2]).flatten).agents.all
+      (fun l => match l with | .done _ => true | _ => false)) = true := by
+  decide +kernel
 
 end CppUtil.Props
